@@ -34,6 +34,7 @@ type config struct {
 	PreStored int    `json:"pairings_already_stored"`
 	Split     string `json:"frame_split_policy"`
 	BigPut    int    `json:"put_value_bytes"`
+	AccID     string `json:"stored_accessory_id,omitempty"` // a uuid file already in the storage (e.g. written by an older version / another tool)
 	seed      int64
 }
 
@@ -107,6 +108,10 @@ func runConfig(c config) {
 		o := refctl.NewIdentity(fmt.Sprintf("other-%d-%d", i, rnd.Intn(1e6)), rnd)
 		others = append(others, o)
 		app.StoreController(dir, o)
+	}
+	if c.AccID != "" {
+		os.MkdirAll(dir, 0o755)
+		os.WriteFile(dir+"/uuid", []byte(c.AccID), 0o666)
 	}
 	// accessory set with a writable string characteristic for large PUT bodies
 	first := accessory.NewSwitch(accessory.Info{Name: c.AccName})
@@ -206,6 +211,10 @@ func runConfig(c config) {
 		fail(c, "setup:unexpected-entities", fmt.Sprintf("%d controller entities stored, expected %d", len(ctrls), 1+len(others)), nil)
 	}
 	txt := a.TXT()
+	if c.AccID != "" && txt["id"] != c.AccID {
+		fail(c, "setup:stored-accessory-id-not-used", fmt.Sprintf("the storage holds accessory id %q, the accessory advertises %q", c.AccID, txt["id"]), nil)
+	}
+	run.Distinct("accessory_id_shape", idShape(txt["id"]))
 	if s.AccessoryID != txt["id"] {
 		fail(c, "setup:M6-identifier-differs-from-advertised-id", fmt.Sprintf("M6 identifier %q, advertised id %q", s.AccessoryID, txt["id"]), nil)
 	}
@@ -409,6 +418,12 @@ func main() {
 		if rnd.Intn(7) == 0 {
 			c.AccName = "Żółw é " + fmt.Sprint(i)
 		}
+		switch rnd.Intn(4) {
+		case 0: // lower-case id
+			c.AccID = fmt.Sprintf("%02x:%02x:%02x:%02x:%02x:%02x", rnd.Intn(256), rnd.Intn(256), rnd.Intn(256), rnd.Intn(256), rnd.Intn(256), rnd.Intn(256))
+		case 1: // mixed case
+			c.AccID = fmt.Sprintf("%02X:%02x:%02X:%02x:%02X:%02x", 0xA0+rnd.Intn(16), 0xb0+rnd.Intn(16), 0xC0+rnd.Intn(16), 0xd0+rnd.Intn(16), 0xE0+rnd.Intn(16), 0xf0+rnd.Intn(16))
+		}
 		cfgs = append(cfgs, c)
 	}
 	var wg sync.WaitGroup
@@ -435,4 +450,25 @@ func main() {
 	_ = ed25519.PublicKeySize
 	r.Floor("configurations_completed", int(r.Counter("configurations_completed")), n*9/10)
 	r.Finish()
+}
+
+func idShape(id string) string {
+	up, lo := false, false
+	for _, r := range id {
+		if r >= 'a' && r <= 'f' {
+			lo = true
+		}
+		if r >= 'A' && r <= 'F' {
+			up = true
+		}
+	}
+	switch {
+	case up && lo:
+		return "mixed-case"
+	case lo:
+		return "lower-case"
+	case up:
+		return "upper-case"
+	}
+	return "digits-only"
 }
